@@ -172,7 +172,58 @@ def padding(root):
     _rewrite(root, lambda t: _Padding().visit(t))
 
 
+class _Logging(ast.NodeTransformer):
+    def __init__(self):
+        self.has_log = False
+
+    def visit_Module(self, n):
+        self.has_log = any(
+            isinstance(s, ast.Assign) and any(
+                isinstance(t, ast.Name) and t.id == 'LOG' for t in s.targets)
+            for s in n.body)
+        if self.has_log:
+            self.generic_visit(n)
+        return n
+
+    def _fn(self, n):
+        self.generic_visit(n)
+        is_gen = any(isinstance(x, (ast.Yield, ast.YieldFrom))
+                     for x in ast.walk(n))
+        stmt = ast.parse("LOG.debug('selftest: entering %s', %r)"
+                         % ('%s', n.name)).body[0]
+        i = 0
+        if n.body and isinstance(n.body[0], ast.Expr) and isinstance(
+                n.body[0].value, ast.Constant):
+            i = 1
+        if n.name not in ('__init__',) and not is_gen:
+            n.body.insert(i, stmt)
+        return n
+
+    visit_FunctionDef = _fn
+
+
+def logging_calls(root):
+    """A debug log statement at the start of every function (modules that
+    define LOG)."""
+    _rewrite(root, lambda t: _Logging().visit(t))
+
+
+class _Annotate(ast.NodeTransformer):
+    def visit_FunctionDef(self, n):
+        self.generic_visit(n)
+        for a in n.args.args + n.args.kwonlyargs:
+            if a.annotation is None and a.arg not in ('self', 'cls'):
+                a.annotation = ast.Constant(value='object')
+        return n
+
+
+def annotations(root):
+    """String type annotations on every parameter."""
+    _rewrite(root, lambda t: _Annotate().visit(t))
+
+
 AUTO = [('auto-unparse', unparse), ('auto-alpha-rename', alpha),
         ('auto-swap-if-else', swap_branches), ('auto-swap-eq', swap_eq),
         ('auto-de-morgan', de_morgan), ('auto-tuple-list', tuple_list),
-        ('auto-padding', padding)]
+        ('auto-padding', padding), ('auto-logging', logging_calls),
+        ('auto-annotations', annotations)]
